@@ -25,7 +25,7 @@ def plan(tier):
     return 400 if tier == 'quick' else 6000
 
 
-def build(cs):
+def build(cs, valid_only=False):
     g = Gen(cs, 'std')
     rng = g.rng
     cfg = g.cfg(index=cs)
@@ -62,12 +62,24 @@ def build(cs):
     if rng.random() < 0.5:
         hy['part_entry'] = rng.choice([1, 2, 3, 4])
     if rng.random() < 0.3:
-        hy['part_offset'] = rng.choice([0, 1, 63, 2048])
+        hy['part_offset'] = rng.choice([0, 1, 63, 2048]) if not valid_only else rng.choice([0, 1, 7, 63])
     if rng.random() < 0.4:
         hy['mbr_id'] = rng.choice([0, 1, 0xdeadbeef, 0xffffffff])
     if rng.random() < 0.3:
         hy['part_type'] = rng.choice([0, 0x17, 0x83])
-    if n_efi >= 1 and rng.random() < 0.8:
+    n_ok = sum(1 for o in h.ops if o['op'] == 'add_eltorito' and o.get('efi'))
+    if valid_only:
+        # the documented combinations: efi needs exactly one EFI section, mac two
+        if n_ok == 1:
+            hy['efi'] = True
+        elif n_ok == 2:
+            hy['efi'] = True
+            hy['mac'] = True
+        if hy.get('efi') and hy.get('part_entry') == 2 or hy.get('mac') and hy.get('part_entry') == 3:
+            hy['part_entry'] = 1
+        if hy.get('mac'):
+            hy.pop('part_type', None)
+    elif n_efi >= 1 and rng.random() < 0.8:
         hy['efi'] = True
         if n_efi >= 2 and rng.random() < 0.7:
             hy['mac'] = True
